@@ -411,7 +411,12 @@ def live_names(spec):
 def quantity_edit(draw, spec, names=None, again=None):
     """``again``: (obj, attr) pairs edited earlier in the history; re-editing one of them (accumulation, aliasing and
     'second edit is lost' defects need the same input to change twice) is drawn with probability 0.3."""
-    names = names or [n for n in live_names(spec) if S.quantity_inputs(spec["objs"][n]["cls"])]
+    if names is None:
+        names = [n for n in live_names(spec) if S.quantity_inputs(spec["objs"][n]["cls"])]
+        # most edits go to objects the system actually uses (an edit of an unused object changes nothing)
+        used = S.spec_reachable(spec)
+        if draw(st.floats(0, 1)) < 0.85 and any(n in used for n in names):
+            names = [n for n in names if n in used]
     again = [x for x in (again or []) if x[0] in names]
     if again and draw(st.floats(0, 1)) < 0.3:
         n, a = draw(st.sampled_from(again))
